@@ -29,33 +29,23 @@ bool splinetable<Alloc>::remove_key(const char* key){
 		return (false);
 	
 	//remove the key
-	char_ptr_ptr* tmp_aux=nullptr;
-	try{
-		//first, shuffle all of the remaining keys and values into a temporary buffer
-		tmp_aux = new char_ptr_ptr[naux-1];
-		for (uint32_t j=0, k=0; j<naux; j++) {
-			if (j!=i)
-				tmp_aux[k++]=aux[j];
-		}
-		//eliminate the selected key and value
-		deallocate(aux[i][0],strlen(&aux[i][0][0])+1);
-		deallocate(aux[i][1],strlen(&aux[i][1][0])+1);
-		deallocate(aux[i],2);
-		//deallocate the old aux
-		deallocate(aux,naux);
-		//allocate new aux
-		naux--;
-		//this should be able to fit in the space vacated by the previous version,
-		//even if nowhere else is available, so it should not fail under sane
-		//circumstances
-		aux = allocate<char_ptr_ptr>(naux);
-		//copy back remaining keys and values
-		std::copy_n(&tmp_aux[0],naux,&aux[0]);
-	}catch(...){
-		delete[] tmp_aux;
-		throw;
+	//Get the smaller array before anything is released, as write_key does: if
+	//this fails the table is untouched. (Releasing first left aux pointing to
+	//released storage, and the remaining entries unreachable, on failure.)
+	char_ptr_ptr_ptr new_aux = allocate<char_ptr_ptr>(naux-1);
+	//move all of the remaining keys and values over
+	for (uint32_t j=0, k=0; j<naux; j++) {
+		if (j!=i)
+			new_aux[k++]=aux[j];
 	}
-	delete[] tmp_aux;
+	//eliminate the selected key and value
+	deallocate(aux[i][0],strlen(&aux[i][0][0])+1);
+	deallocate(aux[i][1],strlen(&aux[i][1][0])+1);
+	deallocate(aux[i],2);
+	//deallocate the old aux
+	deallocate(aux,naux);
+	aux = new_aux;
+	naux--;
 	return (true);
 }
 	
